@@ -1320,11 +1320,13 @@ E2E_INCDIRS = {"inc_a": "#define CFG_A 1\n", "inc_b": "#define CFG_B 1\n"}
 CFG_INCLUDE = "#include <cfg.h>"
 
 
-def gen_e2e(rng, builtin):
+def gen_e2e(rng, builtin, force_twin=False):
+    """force_twin: every command gets a twin that differs from it only in what it includes, and every source includes the
+    configuration header (so the include directories decide which lines are used)"""
     comps, _ = spec_load(builtin, E2E_USER)
     case = {"stream": "e2e", "config": E2E_USER, "sources": {}, "platforms": {}}
     for k in range(rng.randint(1, 2)):
-        case["sources"][f"s{k}.cpp"] = ([CFG_INCLUDE] if rng.random() < 0.6 else []) + gen_guarded_source(rng)
+        case["sources"][f"s{k}.cpp"] = ([CFG_INCLUDE] if (force_twin or rng.random() < 0.6) else []) + gen_guarded_source(rng)
     for pname in rng.sample(["cpu", "gpu", "fpga", "host"], rng.randint(1, 3)):
         entries = []
         for _c in range(rng.randint(1, 2)):
@@ -1351,11 +1353,11 @@ def gen_e2e(rng, builtin):
             items.append(("file", nm))
             cname = rng.choice([comp_name, "/usr/bin/" + comp_name])
             entries.append({"file": nm, "compiler": cname, "argv": render(items, rules), "items": [list(i) for i in items]})
-            if rng.random() < 0.35:
+            if force_twin or rng.random() < 0.35:
                 # a second command for the same file that differs from the first only in what it includes
                 # (other -I directories, or a flag whose passes declare include files only)
                 twin = [i for i in items if i[0] != "I" and not (i[0] == "rule" and rules[i[1]]["action"] == "store_split")]
-                extra = [("I", dn, rng.random() < 0.5) for dn in rng.sample(sorted(E2E_INCDIRS), rng.randint(0, 2))]
+                extra = [("I", dn, rng.random() < 0.5) for dn in rng.sample(sorted(E2E_INCDIRS), rng.randint(1 if force_twin else 0, 2))]
                 if comp_name in ("mycc", "mpicc") and rng.random() < 0.6:
                     i_split = next(i for i, r in enumerate(rules) if r["action"] == "store_split")
                     extra.append(("rule", i_split, rules[i_split]["flags"][0], "c", rng.choice(["eq", "sep"])))
@@ -1510,8 +1512,8 @@ def _code_lines(lines):
 
 
 def stream_e2e(ck, rng, n):
-    for _ in range(n):
-        e2e_case(ck, gen_e2e(rng, ck.builtin))
+    for k in range(n):
+        e2e_case(ck, gen_e2e(rng, ck.builtin, force_twin=(k % 3 == 0)))
 
 
 # --------------------------------------------------------------------------
